@@ -244,6 +244,15 @@ class _OpenFile(Native):
         return None
 
 
+class PathStr(str):
+    """str(FakePath): an ordinary string for the interpreted code that remembers which path object it came from"""
+
+    def __new__(cls, path):
+        o = str.__new__(cls, str(path.pure))
+        o.path = path
+        return o
+
+
 def install(eng, fs, cwd):
     """pathlib.Path(...) -> FakePath, Path.cwd()/os.getcwd() -> cwd, os.utime -> recorded, str(FakePath) stays a path"""
     def ctor(e, *args):
@@ -257,7 +266,7 @@ def install(eng, fs, cwd):
     eng.models.reg(pathlib.Path, ctor)
     eng.path_cwd = FakePath(fs, cwd, cwd)
     eng.models.reg(os.getcwd, lambda e: cwd)
-    eng.models.reg(os.utime, lambda e, p, times=None, **k: (p if isinstance(p, FakePath) else ctor(e, p)).utime(e, times))
+    eng.models.reg(os.utime, lambda e, p, times=None, **k: (p.path if isinstance(p, PathStr) else (p if isinstance(p, FakePath) else ctor(e, p))).utime(e, times))
     base_str = eng.models.NATIVE[id(str)]
-    eng.models.reg(str, lambda e, *a: a[0] if a and isinstance(a[0], FakePath) else base_str(e, *a))
+    eng.models.reg(str, lambda e, *a: PathStr(a[0]) if a and isinstance(a[0], FakePath) else base_str(e, *a))
     return ctor
